@@ -140,7 +140,8 @@ impl Sc for f32 {
     }
     fn dec(self, sh: i32) -> Option<i64> {
         let y = (self as f64) * 2f64.powi(-sh);
-        if !y.is_finite() || y.fract() != 0.0 || y.abs() > 16777216.0 {
+        // (integers beyond 2^24 are fine as long as they are exactly representable: the round trip below decides)
+        if !y.is_finite() || y.fract() != 0.0 || y.abs() > 4611686018427387904.0 {
             return None;
         }
         let v = y as i64;
@@ -1845,7 +1846,44 @@ fn decimal_tenths(r: &mut Rng) -> Vec<IP> {
     pts
 }
 
+/// Coordinates of very different magnitude in ONE input (floats only): a few far points m*2^k (k = 50..57, |m| <= 3) and
+/// a few points within 2^21 of the origin that sit one lattice step beside a line from the origin to a far point. Every
+/// coordinate is exactly representable even in f32 (short significands), the exact orientation of each near point is
+/// +-2^k*(small integer), and a determinant taken on ROUNDED differences (far minus near needs 55+ bits) loses it.
+fn mixed_magnitude(r: &mut Rng) -> Vec<IP> {
+    let k = 1i64 << r.range(50, 57);
+    let dirs: [(i64, i64); 8] = [(1, 0), (1, 1), (0, 1), (-1, 1), (2, 1), (1, 2), (3, -1), (-1, -2)];
+    let (a, b) = *r.pick(&dirs);
+    let (c, d) = loop {
+        let (c, d) = *r.pick(&dirs);
+        if a * d - b * c != 0 {
+            break (c, d);
+        }
+    };
+    let mut pts: Vec<IP> = vec![(0, 0), (a * k, b * k), (c * k, d * k)];
+    if r.chance(1, 2) {
+        pts.push(((a + c) * k / 2 * 2 / 2, (b + d) * k / 2 * 2 / 2));
+    }
+    for _ in 0..r.range(1, 4) {
+        let t = if r.chance(1, 3) { 0 } else { 1i64 << r.range(0, 20) };
+        let (ea, eb) = if r.chance(1, 2) { (a, b) } else { (c, d) };
+        pts.push((ea * t + r.range(-1, 1), eb * t + r.range(-1, 1)));
+    }
+    r.shuffle(&mut pts);
+    pts
+}
+
 pub fn gen_case(r: &mut Rng, thorough: bool) -> Case {
+    if r.chance(1, 40) {
+        let pts = mixed_magnitude(r);
+        let cont = pick_container(r, pts.len());
+        let (sw, nx) = (r.chance(1, 2), r.chance(1, 2));
+        let pts = pts.into_iter().map(|p| { let p = if sw { (p.1, p.0) } else { p }; if nx { (-p.0, p.1) } else { p } }).collect();
+        // (f32: the far coordinates stay below 2^62, so that their products stay inside the range of the type)
+        let scalar = if r.chance(1, 2) { 1 } else { 0 };
+        let sh = if r.chance(1, 2) { r.range(-30, if scalar == 1 { 3 } else { 30 }) as i32 } else { 0 };
+        return Case { scalar, pts, sh, cont, cseed: r.next(), stratum: "mixed-magnitude", full: true };
+    }
     if r.chance(1, 12) {
         let pts = decimal_tenths(r);
         let cont = pick_container(r, pts.len());
